@@ -38,6 +38,12 @@ Sensitivity (quick tier, seed 1, one textual mutation at a time on a scratch cop
     holding a CancelledError *instance* is failed, not cancelled) for chain / with_timeout / WaitIterator and (b) the
     future type (asyncio vs concurrent.futures) is a grid dimension for chain source/target, with_timeout input and
     future_add_done_callback.  Earlier version: missed, its normal form equated the two.
+  * WaitIterator.__init__ fills the CLASS-LEVEL `_unfinished` dict instead of building a fresh one (all positional
+    iterators share one future->index table)                           -> caught at seeds 1-3 with exit 1
+    (C36.state_shared_between_iterators: entries left in the class-level table after a case, e.g. an `async for` aborted
+    by a failing input; and behaviourally by the two/three-iterator histories: C36.wait.next_raised KeyError,
+    C36.wait.done_false_after_last, C36.wait.yielded_foreign_input).  Earlier version: exit 2 (state leaking between
+    cases made Hypothesis report the check as flaky); every case now starts by resetting the class-level table.
   * with_timeout: remove the deadline timer only when the input succeeded (DESIGN's third mutant)
                                                                         -> NOT caught, by construction: the leftover
     timer finds `result.done()` and does nothing but log a spurious "after timeout" line; no clause of the
@@ -62,7 +68,7 @@ RULE = (
     "exhaustive grid: every outcome vector in {result, exception, cancel}^n x every completion permutation "
     "(n<=3 quick, n<=4 thorough) for multi list/dict, WaitIterator next-loop (eager/lazy) and async-for, "
     "with_timeout x every deadline placement (half-integer steps around the completions, float and "
-    "timedelta), chain_future x {b pending, b done first}, and the same with concurrent.futures.Future as chain source / target / with_timeout input, future_add_done_callback on both types; plus Hypothesis cases adding duplicates, "
+    "timedelta), two/three WaitIterators interleaved with the first abandoned half-way, chain_future x {b pending, b done first}, and the same with concurrent.futures.Future as chain source / target / with_timeout input, future_add_done_callback on both types; plus Hypothesis cases adding duplicates, "
     "already-done inputs, concurrent.futures sources, b pre/mid completion, next() interleavings. "
     "non-trivial = >=2 inputs with >=1 non-result outcome, or a deadline strictly between two "
     "completions; distinct = SHA-1 of the case"
@@ -644,17 +650,147 @@ async def _scn_fadc(ctx, case, labels):
     return n >= 2 and any(o != "r" for o in outs)
 
 
-SCN = {"fadc": _scn_fadc, "multi": _scn_multi, "wait": _scn_wait, "wait_dup": _scn_wait_dup, "timeout": _scn_timeout, "chain": _scn_chain}
+# --------------------------------------------------------------------------- several WaitIterators at once
+async def _scn_wait_multi(ctx, case, labels):
+    """Two or three WaitIterators (positional / keyword) over disjoint inputs, created at generated points, consumed in
+    an interleaved way, some abandoned half-way.  Each iterator is judged on its own: it yields only ITS inputs, each at
+    most once (exactly once unless abandoned), with its own index/key, in completion order."""
+    iters = case["iters"]          # dicts: form, n, abandon (None or number of yields after which it is dropped)
+    outs = case["out"]             # per global input
+    base = [0]
+    for it in iters:
+        base.append(base[-1] + it["n"])
+    total = base[-1]
+    inp = Inputs(ctx, total, outs)
+    W = [None] * len(iters)
+    pre_group = [None] * len(iters)
+    order_seen = []                # global completion order
+    yields = [[] for _ in iters]
+    outstanding = [None] * len(iters)
+
+    def own(j):
+        return range(base[j], base[j + 1])
+
+    def key(j, g):
+        return "k%d" % (g - base[j]) if iters[j]["form"] == "kwargs" else g - base[j]
+
+    def create(j):
+        if W[j] is not None:
+            return
+        futs = [inp.futs[g] for g in own(j)]
+        pre_group[j] = [g for g in own(j) if inp.done[g]]
+        if iters[j]["form"] == "kwargs":
+            W[j] = _guard(ctx, case, "WaitIterator", gen.WaitIterator, **{"k%d" % i: f for i, f in enumerate(futs)})
+        else:
+            W[j] = _guard(ctx, case, "WaitIterator", gen.WaitIterator, *futs)
+
+    def poll(j):
+        o = outstanding[j]
+        if o is not None and o.done():
+            cf = W[j].current_future
+            g = next((x for x in range(total) if inp.futs[x] is cf), None)
+            yields[j].append((W[j].current_index, g, snorm(o)))
+            outstanding[j] = None
+
+    def abandoned(j):
+        a = iters[j]["abandon"]
+        return a is not None and len(yields[j]) >= a
+
+    def try_next(j):
+        if W[j] is None:
+            return
+        poll(j)
+        if outstanding[j] is not None or abandoned(j) or len(yields[j]) >= iters[j]["n"]:
+            return
+        try:
+            outstanding[j] = _guard(ctx, case, "next", W[j].next)
+        except KeyError as e:
+            ctx.fail("C36.wait.next_raised", {"case": case, "iterator": j, "exc": repr(e), "yields": _j(yields)})
+            iters[j]["abandon"] = len(yields[j])
+
+    for op in case["ops"]:
+        if op[0] == "new":
+            create(op[1] % len(iters))
+        elif op[0] == "c":
+            g = op[1] % total if total else None
+            if g is not None and not inp.done[g]:
+                inp.complete(g)
+                order_seen.append(g)
+        else:
+            try_next(op[1] % len(iters))
+        await vtime.settle()
+        for j in range(len(iters)):
+            if W[j] is not None:
+                poll(j)
+    for j in range(len(iters)):
+        create(j)
+    for g in range(total):
+        if not inp.done[g]:
+            inp.complete(g)
+            order_seen.append(g)
+            await vtime.settle()
+    for j in range(len(iters)):
+        for _ in range(iters[j]["n"] + 1):
+            try_next(j)
+            await vtime.settle()
+            poll(j)
+    for j in range(len(iters)):
+        ys = yields[j]
+        gs = [y[1] for y in ys]
+        detail = {"case": case, "iterator": j, "yields": _j(ys)}
+        if any(g is None or g not in own(j) for g in gs):
+            ctx.fail("C36.wait.yielded_foreign_input", detail)
+            continue
+        if len(set(gs)) != len(gs):
+            ctx.fail("C36.wait.not_exactly_once", detail)
+        for ci, g, got in ys:
+            if ci != key(j, g) or got != inp.expected(g):
+                ctx.fail("C36.wait.yield_mismatch", dict(detail, input=g, want=_j(inp.expected(g))))
+        k = min(len(gs), len(pre_group[j]))
+        rest = [g for g in order_seen if g in own(j) and g not in pre_group[j]]
+        if not set(gs[:k]) <= set(pre_group[j]) or gs[k:] != rest[: len(gs) - k]:
+            ctx.fail("C36.wait.order", dict(detail, pre_done=pre_group[j], completion_order=rest))
+        if outstanding[j] is not None and not outstanding[j].done():
+            ctx.fail("C36.pending.wait", detail, sig=_pending_sig("wait", outs))
+        if not abandoned(j) or iters[j]["abandon"] >= iters[j]["n"]:
+            if len(gs) != iters[j]["n"]:
+                ctx.fail("C36.wait.not_exactly_once", detail)
+            if not W[j].done():
+                ctx.fail("C36.wait.done_false_after_last", detail)
+        else:
+            labels.add("wait_abandoned_halfway")
+    inp.retrieve()
+    labels.add("wait_multi_%d" % len(iters))
+    if "c" in outs:
+        labels.add("cancelled_input.wait")
+    return True
+
+
+def _reset_shared_state():
+    """WaitIterator declares `_unfinished` at class level; every instance must get its own table.  Entries found in the
+    class-level dict are state shared between iterators (and between cases): returns them and restores an empty dict."""
+    d = gen.WaitIterator.__dict__.get("_unfinished")
+    leaked = len(d) if isinstance(d, dict) else 0
+    if leaked:
+        gen.WaitIterator._unfinished = {}
+    return leaked
+
+
+SCN = {"wait_multi": _scn_wait_multi, "fadc": _scn_fadc, "multi": _scn_multi, "wait": _scn_wait, "wait_dup": _scn_wait_dup, "timeout": _scn_timeout, "chain": _scn_chain}
 
 
 def run_case(ctx, case):
     labels = {case["comb"]}
+    _reset_shared_state()  # whatever an earlier (failing) case left behind must not make this one order-dependent
     with Logs() as logs:
         try:
             nontrivial = vtime.run(SCN[case["comb"]], ctx, case, labels)
         except _Escaped:
             nontrivial = True  # only reached when the failure matched an open known finding
         _check_logs(ctx, logs, case)
+    leaked = _reset_shared_state()
+    if leaked:
+        ctx.fail("C36.state_shared_between_iterators", {"case": case, "entries_left_in_class_level_table": leaked})
     ctx.note(case, labels, bool(nontrivial))
 
 
@@ -692,9 +828,38 @@ def grid_cases(nmax):
                     yield _base("fadc", n, outs, order, kinds=["cf"] * n)
 
 
+def multi_iter_cases():
+    """Deterministic histories with two / three iterators: the first is abandoned half-way (one of its inputs never
+    yielded) before or while the second is created and fully consumed."""
+    for forms in (("args", "args"), ("args", "kwargs"), ("kwargs", "args"), ("args", "args", "args")):
+        for outs_first in ("rr", "re", "cr"):
+            for interleave in (0, 1, 2):
+                iters = [{"form": f, "n": 2, "abandon": 1 if j == 0 else None} for j, f in enumerate(forms)]
+                total = 2 * len(forms)
+                out = list(outs_first) + ["r"] * (total - 2)
+                if interleave == 0:    # first used and dropped, then the others built and consumed
+                    ops = [("new", 0), ("c", 0), ("n", 0), ("new", 1), ("c", 2), ("n", 1), ("c", 3), ("n", 1), ("c", 1)]
+                elif interleave == 1:  # both alive, completions and next() calls interleaved
+                    ops = [("new", 0), ("new", 1), ("n", 0), ("n", 1), ("c", 2), ("c", 0), ("c", 1), ("n", 1), ("c", 3)]
+                else:                  # second created while the first still has an outstanding next()
+                    ops = [("new", 0), ("n", 0), ("new", 1), ("c", 3), ("n", 1), ("c", 0), ("c", 2), ("n", 1), ("c", 1)]
+                yield {"comb": "wait_multi", "iters": iters, "out": out, "ops": ops}
+
+
 @st.composite
 def case_s(draw):
-    comb = draw(st.sampled_from(["multi", "multi", "wait", "wait", "wait_dup", "timeout", "timeout", "chain", "chain", "fadc"]))
+    comb = draw(st.sampled_from(["multi", "multi", "wait", "wait", "wait_dup", "timeout", "timeout", "chain", "chain", "fadc",
+                                 "wait_multi", "wait_multi"]))
+    if comb == "wait_multi":
+        k = draw(st.integers(2, 3))
+        iters = [{"form": draw(st.sampled_from(["args", "args", "kwargs"])), "n": draw(st.integers(1, 3)),
+                  "abandon": draw(st.sampled_from([None, None, 0, 1, 1, 2]))} for _ in range(k)]
+        total = sum(it["n"] for it in iters)
+        op = st.one_of(st.tuples(st.just("new"), st.integers(0, k - 1)),
+                       st.tuples(st.just("c"), st.integers(0, total - 1)), st.tuples(st.just("c"), st.integers(0, total - 1)),
+                       st.tuples(st.just("n"), st.integers(0, k - 1)), st.tuples(st.just("n"), st.integers(0, k - 1)))
+        return {"comb": comb, "iters": iters, "out": draw(st.lists(st.sampled_from("rrec"), min_size=total, max_size=total)),
+                "ops": draw(st.lists(op, min_size=2, max_size=20))}
     n = draw(st.integers(1 if comb == "wait_dup" else 0, 4))
     outs = draw(st.lists(st.sampled_from("rrec"), min_size=n, max_size=n))
     pre = draw(st.lists(st.sampled_from([False, False, True]), min_size=n, max_size=n))
@@ -737,10 +902,11 @@ def case_s(draw):
     return c
 
 
-PARTS = {"main": run_case, "grid": run_case}
+PARTS = {"main": run_case, "grid": run_case, "multi_iter": run_case}
 
 
 def main(ctx):
     ctx.run_replays(PARTS)
     ctx.enumerate(grid_cases(4 if ctx.thorough else 3), run_case, name="grid")
+    ctx.enumerate(multi_iter_cases(), run_case, name="multi_iter")
     ctx.explore(case_s(), run_case, ctx.n(2000, 50000), name="main")
